@@ -11,6 +11,7 @@ import (
 	"fmt"
 	"os"
 	"path/filepath"
+	"sort"
 	"strconv"
 	"strings"
 	"time"
@@ -23,6 +24,9 @@ import (
 type edit struct {
 	Files  map[string]*string `json:"files"`
 	Events int                `json:"events"`
+	Rmdirs []string           `json:"rmdirs"`
+	// Quiescent: this edit is made only when no regeneration is in flight and the timer is idle
+	Quiescent bool `json:"quiescent"`
 }
 
 type scenario struct {
@@ -98,7 +102,7 @@ func main() {
 		if armed && loopStarted && pushed > 0 {
 			names = append(names, "timer")
 		}
-		if nextEdit < len(sc.Edits) {
+		if nextEdit < len(sc.Edits) && (!sc.Edits[nextEdit].Quiescent || (len(names) == 0 && loopStarted)) {
 			names = append(names, "env")
 		}
 		if len(names) == 0 {
@@ -131,7 +135,21 @@ func main() {
 			e := sc.Edits[nextEdit]
 			nextEdit++
 			w := veriffsn.Current
-			for path, content := range e.Files {
+			for _, dir := range e.Rmdirs {
+				os.RemoveAll(dir)
+				// a watched directory that disappears raises one event for itself and loses its watch
+				if w != nil && w.Unwatch(dir) {
+					w.Events <- veriffsn.Event{Name: dir, Op: 4}
+					pushed++
+				}
+			}
+			paths := make([]string, 0, len(e.Files))
+			for path := range e.Files {
+				paths = append(paths, path)
+			}
+			sort.Strings(paths)
+			for _, path := range paths {
+				content := e.Files[path]
 				if content == nil {
 					os.Remove(path)
 				} else {
